@@ -103,6 +103,8 @@ struct Ctx {
     ts: HashMap<u64, i64>,
     tokens: Vec<Option<Vec<u8>>>,
     foreign_token: Vec<u8>,
+    /// (key label, salt label, seq) -> (value label, signature) of valid items sent so far in this behaviour
+    sigs: HashMap<(String, String, i64), (String, [u8; 64])>,
 }
 
 fn target_of_label(ctx: &mut Ctx, t: &Value) -> [u8; 20] {
@@ -213,7 +215,13 @@ fn concretise(ctx: &mut Ctx, r: &mut Value, step: usize, rng: &mut Rng) -> Optio
             let seq = r["seq"].as_i64().unwrap_or(0);
             let cas = r["cas"].as_i64().unwrap_or(-1);
             let mut sig = crypto::sign_mutable(&sk, seq, &bytes, salt.as_deref());
-            if !r["sigok"].as_bool().unwrap_or(true) {
+            let replayable = ctx.sigs.get(&(kl.clone(), salt_l.clone(), seq)).filter(|(v0, _)| *v0 != val).map(|x| x.1);
+            if r["sigok"].as_bool().unwrap_or(true) {
+                ctx.sigs.insert((kl.clone(), salt_l.clone(), seq), (val.clone(), sig));
+            } else if let (Some(old), true) = (replayable, rng.chance(2, 3)) {
+                // the genuine signature of ANOTHER value with the same key, salt and seq (possibly the stored one)
+                sig = old;
+            } else {
                 match rng.below(4) {
                     0 => sig[rng.below(64) as usize] ^= 1 << rng.below(8),
                     1 => sig = crypto::sign_mutable(&sk, seq + 1, &bytes, salt.as_deref()),
@@ -398,6 +406,7 @@ pub fn replay(b: &Value, out: &mut Out, seed: u64) -> (u64, bool, bool) {
         ts: HashMap::new(),
         tokens: vec![],
         foreign_token: vec![],
+        sigs: HashMap::new(),
     };
     {
         let q = krpc::get_value(1, &nid("requester"), &[7u8; 20], None, false).encode();
